@@ -5718,7 +5718,7 @@ evdns_getaddrinfo_fromhosts(struct evdns_base *base,
 	EVDNS_LOCK(base);
 	for (e = find_hosts_entry(base, nodename, NULL); e;
 	    e = find_hosts_entry(base, nodename, e)) {
-		struct evutil_addrinfo *ai_new;
+		struct evutil_addrinfo *ai_new, *ai_p;
 		++n_found;
 		if ((e->addr.sa.sa_family == AF_INET && f == PF_INET6) ||
 		    (e->addr.sa.sa_family == AF_INET6 && f == PF_INET))
@@ -5728,7 +5728,9 @@ evdns_getaddrinfo_fromhosts(struct evdns_base *base,
 			n_found = 0;
 			goto out;
 		}
-		sockaddr_setport(ai_new->ai_addr, port);
+		/* without a socktype in the hints we get a TCP and a UDP record */
+		for (ai_p = ai_new; ai_p; ai_p = ai_p->ai_next)
+			sockaddr_setport(ai_p->ai_addr, port);
 		ai = evutil_addrinfo_append_(ai, ai_new);
 	}
 	EVDNS_UNLOCK(base);
